@@ -57,11 +57,22 @@ def ensemble(rng, r):
     return dict(dims=dims, n=n, cplx=cplx, form=form, inp=inp, rhos=rhos, p=p, pk=pk)
 
 
-def bell_ensemble():
+def bell_ensemble(subset=(0, 1, 2, 3), rng=None):
+    """k Bell states with uniform prior (optionally rotated by a local unitary): PPT value min(1, 2/k) (k = 4: 1/2, k = 3: 2/3, k = 2: 1)."""
     s = 1 / np.sqrt(2)
     kets = [np.array([s, 0, 0, s]), np.array([s, 0, 0, -s]), np.array([0, s, s, 0]), np.array([0, s, -s, 0])]
+    kets = [kets[i].astype(complex) for i in subset]
+    cplx = False
+    if rng is not None:
+        uu = np.kron(gen.haar(rng, 2), gen.haar(rng, 2))
+        kets = [uu @ k for k in kets]
+        cplx = True
     inp = [k.reshape(-1, 1) for k in kets]
-    return dict(dims=[2, 2], n=4, cplx=False, form="ket", inp=inp, rhos=[v @ v.conj().T for v in inp], p=np.full(4, 0.25), pk=0)
+    n = len(kets)
+    return dict(dims=[2, 2], n=n, cplx=cplx, form="ket", inp=inp, rhos=[v @ v.conj().T for v in inp], p=np.full(n, 1.0 / n), pk=0)
+
+
+BELL_SUBSETS = [(0, 1, 2, 3), (0, 1, 2), (0, 1, 3), (0, 2, 3), (1, 2, 3), (0, 1), (2, 3), (0, 1, 2, 3), (1, 2, 3)]
 
 
 def product_measurement_value(rng, e, tries=60):
@@ -103,7 +114,8 @@ def _run_ppt(ctx, spec, rng):
     from toqito.state_opt import ppt_distinguishability
 
     r = spec[1]
-    e = bell_ensemble() if r == 0 else ensemble(rng, r)
+    anchor = r < len(BELL_SUBSETS)
+    e = bell_ensemble(BELL_SUBSETS[r], rng if r >= 7 else None) if anchor else ensemble(rng, r)
     dims, n, p = e["dims"], e["n"], e["p"]
     field = "complex" if e["cplx"] else "real"
     sig = (tuple(dims), n, e["form"], field, e["pk"])
@@ -134,8 +146,9 @@ def _run_ppt(ctx, spec, rng):
     gu = global_upper(ctx, e)
     if gu is not None:
         ctx.check("O1:PPT<=global", v <= gu + 2e-4, dev=max(0.0, v - gu), tol=2e-4, sig=sig, nt=nt, mech="ppt_distinguishability:above-global-optimum", detail=dict(det, global_upper=gu))
-    if r == 0:
-        ctx.check("O2:bell=1/2", None, dev=abs(v - 0.5), tol=TOLA, sig=("bell",), nt=True, mech="ppt_distinguishability:bell!=1/2", detail=det)
+    if anchor:
+        want = min(1.0, 2.0 / n)
+        ctx.check("O2:bell=1/2", None, dev=abs(v - want), tol=TOLA, sig=("bell", n, field), nt=True, mech=f"ppt_distinguishability:{n}-bell-states!=min(1,2/k)", detail=dict(det, want=want))
     # local unitary invariance
     ua, ub = gen.haar(rng, dims[0], real=not e["cplx"]), gen.haar(rng, dims[1], real=not e["cplx"])
     uu = np.kron(ua, ub)
